@@ -201,3 +201,25 @@ h_divzero!(c02_q_divzero_remassign_bvdyn1_l3_u8, 9, int, bvdyn1(3), iu8(), |a, b
 h_divq2!(c02_q_divq2ops_f8x1_f16x1, 4, int, f8x1(anylen(8)), f16x1(anylen(16)));
 h_divq2!(c02_q_divq2ops_f8x2_f8x3, 4, int, f8x2(anylen(16)), f8x3(anylen(24)));
 h_divq2!(c02_t_divq2ops_f16x1_f64x1, 4, int, f16x1(anylen(16)), f64x1(anylen(64)));
+
+// ---- a divisor that is longer than the dividend AND has set bits at or above the dividend's
+// length (so it is numerically greater): quotient 0, remainder = dividend, for every dividend
+// value. The divisor is concrete (several shapes), the dividend fully symbolic.
+macro_rules! h_div_bigger_divisor {
+    ($name:ident, $unw:literal, $t:ty, $a:expr, $mkb:expr) => {
+        harness_cfs!($name, $unw, {
+            let (a, ra) = $a;
+            let b = $mkb;
+            w!(!ra.v.is_zero(), "non-zero dividend");
+            let (q, r) = a.div_rem::<$t>(&b);
+            let (q, r) = (q.into_raw(), r.into_raw());
+            assert!(q.len == ra.len && r.len == ra.len, "C02: quotient/remainder length differs from the dividend's");
+            assert!(q.v.is_zero(), "C02: quotient != 0 although the divisor is greater than the dividend");
+            assert!(r.v == ra.v, "C02: remainder != dividend although the divisor is greater than the dividend");
+        });
+    };
+}
+h_div_bigger_divisor!(c02_q_divbig_bvfix_l8_bvfix_0x103, 6, Bv, bvfix(8), Bv::Fixed(Bvf::new([0x0103u64, 0], 16)));
+h_div_bigger_divisor!(c02_q_divbig_f8x1_f16x1_0x100, 6, Bvf<u16, 1>, f8x1(anylen(8)), Bvf::<u16, 1>::new([0x0100], 16));
+h_div_bigger_divisor!(c02_q_divbig_bvd1_l8_bvd2_2p64, 6, Bvd, bvd1(8), Bvd::new(Box::new([5u64, 1u64]) as Box<[u64]>, 72));
+h_div_bigger_divisor!(c02_t_divbig_bvdyn1_l8_bvfix_0x103, 6, Bv, bvdyn1(8), Bv::Fixed(Bvf::new([0x0103u64, 0], 16)));
